@@ -39,7 +39,7 @@ def body_factory(tier, seed):
         V.cold_cross_versions(rep, PROP)
         # the outbound half (call()): histories on a real endpoint under the virtual clock
         from harness import gen_history as GH
-        hs = GH.HGen(tier, seed).all()[: (30 if tier == "quick" else 300)]
+        hs = GH.HGen(tier, seed).all()[: (40 if tier == "quick" else 300)]
         GH.run_histories(rep, hs, PROP + "h", PROP, O.c05_caller, "VH05")
         for c in (cases[25], cases[len(cases) // 2], cases[-1]):
             rep.sample({"stratum": c[0], "version": c[1], "frame": str(c[3])[:200]})
